@@ -18,7 +18,7 @@ import tempfile
 from string import Template
 
 import common
-from common import clist, cstr, cbool, copt, cZ
+from common import clist, cstr, cbool, cZ
 
 PROP = 'C17'
 COQ_DIR = 'Env'
@@ -51,11 +51,11 @@ def craw(v):
 
 
 def cmap(kvs):
-    return clist(kvs, lambda kv: '(%s, %s)' % (cstr(kv[0]), cstr(kv[1])))
+    return '(%s : map)' % clist(kvs, lambda kv: '(%s, %s)' % (cstr(kv[0]), cstr(kv[1])))
 
 
 def ctab(tab):
-    return clist(tab, lambda ne: '(%s, %s)' % (cstr(ne[0]), clist(ne[1], lambda kv: '(%s, %s)' % (cstr(kv[0]), craw(kv[1])))))
+    return '(%s : envtab)' % clist(tab, lambda ne: '(%s, (%s : rawenv))' % (cstr(ne[0]), clist(ne[1], lambda kv: '(%s, %s)' % (cstr(kv[0]), craw(kv[1])))))
 
 
 def ccfg(c):
@@ -64,11 +64,15 @@ def ccfg(c):
 
 
 def cres(r):
-    return 'None' if r == UNKNOWN else '(Some %s)' % cmap(r)
+    return '(@None map)' if r == UNKNOWN else '(Some %s)' % cmap(r)
+
+
+def cname(n):
+    return '(@None string)' if n is None else '(Some %s)' % cstr(n)
 
 
 def cterm(c, r):
-    return '(%s, %s, %s, %s, (%s, %s))' % (ccfg(c), cmap(c['launch']), copt(c['name'], cstr), cbool(c['interp']),
+    return '(%s, %s, %s, %s, (%s, %s))' % (ccfg(c), cmap(c['launch']), cname(c['name']), cbool(c['interp']),
                                            cres(r['full']), cres(r['unexp']))
 
 
@@ -401,8 +405,8 @@ def explore(ctx, cases):
         m = ''
         if k < 3:
             m = ctx.model_eval(HEADER, '(env_for_node_c %s %s %s %s, env_with_name_c %s %s %s false)' % (
-                ccfg(c), cmap(c['launch']), copt(c['name'], cstr), cbool(c['interp']),
-                ccfg(c), cmap(c['launch']), copt(c['name'], cstr)))
+                ccfg(c), cmap(c['launch']), cname(c['name']), cbool(c['interp']),
+                ccfg(c), cmap(c['launch']), cname(c['name'])))
         ctx.disagree(c, r, m, 'C17 environment: WorkflowGraph.environmentForNode / environmentWithName(expand=False) vs '
                               'Env.Model.env_for_node / env_with_name')
     bad = ctx.model_mismatches(HEADER, [t[0] for t in low_terms], 'check_lower', chunk=400, name='lower')
